@@ -1,112 +1,141 @@
-"""C03/C22 replay / fault enumeration: kill the scheduler process right after the k-th database commit (every k) while it
-records a check_valid='shallow' workflow; then run again in a fresh process with the inner task's version bumped.
-A stale replay of the old result is a violation (the recorded subtree of the shallow call node must include the inner task)."""
-import sys, os, subprocess, tempfile, json, shutil
+"""C22 replay / bounded check (retry half): a single transient OperationalError is injected at every database commit position of a recording
+run (the commit does not happen; the error reaches db_retry, which rolls back and retries).  Each faulted run must return what the clean run
+returns and leave the same records behind -- nothing lost, nothing duplicated.  (The crash half of C22 shares C03's driver: replay/c03.py.)"""
+import sys, os, logging, traceback
 sys.path.insert(0, os.path.dirname(os.path.abspath(__file__)))
 from common import *
 req = read_request()
-
-CHILD = r'''
-import sys, os
-sys.path.insert(0, os.environ.get("VERIF_REPO", "/repo"))
-phase, dbdir, kill_at = sys.argv[1], sys.argv[2], int(sys.argv[3])
 import sqlalchemy.orm
-count = {"n": 0}
-orig = sqlalchemy.orm.Session.commit
-def commit(self):
-    orig(self)
-    count["n"] += 1
-    if kill_at and count["n"] == kill_at:
-        os._exit(17)
-from redun import task, Scheduler
+from sqlalchemy.exc import OperationalError
+from redun import task, Scheduler, File
 from redun.config import Config
-ver = "1" if phase == "1" else "2"
-@task(namespace="c03r", version=ver)
-def inner(x):
-    return "inner-v%s-%d" % (ver, x)
-@task(namespace="c03r", version="1")
-def middle(x):
-    return inner(x)
-@task(namespace="c03r", version="1", check_valid="shallow")
-def outer(x):
-    return [middle(x)]
-import logging
+from redun.scheduler import catch
+from redun.backends.db import CallNode, Job, Value, Execution, Argument, ArgumentResult, CallEdge, Subvalue, Task as TaskRow, File as FileRow, CallSubtreeTask, Evaluation
+
 logging.getLogger("redun").setLevel(logging.CRITICAL)
-s = Scheduler(config=Config({"backend": {"db_uri": "sqlite:///" + os.path.join(dbdir, "redun.db")}}))
-s.load()
-sqlalchemy.orm.Session.commit = commit      # crash points: every commit after the backend is loaded (schema creation is not the subject)
-r = s.run(outer(1))
-print("RESULT", r, "COMMITS", count["n"])
-'''
-tmp = tempfile.mkdtemp(prefix="c03r_", dir=os.path.join(os.path.dirname(os.path.dirname(os.path.abspath(__file__))), ".work"))
-script = os.path.join(tmp, "child.py")
-open(script, "w").write(CHILD)
+NS = "c22t"
+import tempfile
+tmp = tempfile.mkdtemp(prefix="c22_")
 
 
-def run(phase, dbdir, kill_at):
-    p = subprocess.run(["/venv/bin/python", script, phase, dbdir, str(kill_at)], capture_output=True, text=True, timeout=300)
-    return p.returncode, p.stdout
+@task(namespace=NS)
+def inner(x):
+    return x + 1
 
 
-w = None
+@task(namespace=NS)
+def middle(x):
+    return [inner(x), inner(x + 1)]
+
+
+@task(namespace=NS)
+def outer(x):
+    return {"r": middle(x)}
+
+
+for _name in ("a.txt", "b.txt"):
+    with open(os.path.join(tmp, _name), "w") as _out:
+        _out.write(_name)        # written once: a File hash depends on the modification time, every run must see the same files
+
+
+@task(namespace=NS)
+def write(name):
+    return File(os.path.join(tmp, name))
+
+
+@task(namespace=NS)
+def with_files():
+    return [write("a.txt"), {"b": write("b.txt")}]
+
+
+@task(namespace=NS)
+def boom(x):
+    raise ValueError("boom %d" % x)
+
+
+@task(namespace=NS)
+def recover(err):
+    return "recovered"
+
+
+@task(namespace=NS)
+def guarded():
+    return [catch(boom(1), ValueError, recover), inner(5)]
+
+
+orig = sqlalchemy.orm.Session.commit
+state = {"n": 0, "fail_at": 0, "failed": False, "where": None}
+
+
+def commit(self):
+    state["n"] += 1
+    if state["fail_at"] and state["n"] == state["fail_at"] and not state["failed"]:
+        state["failed"] = True
+        state["where"] = [f.name for f in traceback.extract_stack() if "backends/db" in f.filename][-4:]
+        raise OperationalError("COMMIT", {}, Exception("transient: connection lost before the commit"))
+    orig(self)
+
+
+def snapshot(sess):
+    sess.rollback()
+    sess.expire_all()
+    return dict(call_nodes=sorted(c.call_hash for c in sess.query(CallNode)), values=sorted(v.value_hash for v in sess.query(Value)),
+                subvalues=sorted((s.parent_value_hash, s.value_hash) for s in sess.query(Subvalue)), files=sorted(f.value_hash for f in sess.query(FileRow)),
+                tasks=sorted(t.hash for t in sess.query(TaskRow)),
+                jobs=sorted((j.task_hash, j.call_hash or "", bool(j.cached), j.parent_id is None, j.end_time is not None) for j in sess.query(Job)),
+                executions=sess.query(Execution).count(), executions_with_job=sess.query(Execution).filter(Execution.job_id != None).count(),     # noqa: E711
+                arguments=sorted(a.arg_hash for a in sess.query(Argument)), argument_results=sorted((a.arg_hash, a.result_call_hash) for a in sess.query(ArgumentResult)),
+                call_edges=sorted((e.parent_id, e.child_id, e.call_order) for e in sess.query(CallEdge)),
+                subtree_tasks=sorted((s.call_hash, s.task_hash) for s in sess.query(CallSubtreeTask)), evaluations=sorted(e.eval_hash for e in sess.query(Evaluation)))
+
+
+def run(make, fail_at):
+    s = Scheduler(config=Config({"backend": {"db_uri": "sqlite:///:memory:"}}))
+    s.load()
+    s.backend._db_retries_backoff = 0
+    s.logger = s.backend.logger = logging.getLogger("redun")
+    state.update(n=0, fail_at=fail_at, failed=False, where=None)
+    sqlalchemy.orm.Session.commit = commit
+    try:
+        with silence():
+            r, err = s.run(make()), None
+    except BaseException as e:
+        r, err = None, f"{type(e).__name__}: {str(e)[:200]}"
+    finally:
+        sqlalchemy.orm.Session.commit = orig
+    try:
+        snap = snapshot(s.backend.session)
+    except Exception as e2:
+        snap = {"snapshot-error": str(e2)[:120]}
+    return r, err, state["n"], snap
+
+
 n = 0
-try:
-    d0 = os.path.join(tmp, "clean")
-    os.makedirs(d0)
-    rc, out = run("1", d0, 0)
-    total = int(out.strip().split("COMMITS")[-1]) if "COMMITS" in out else 0
-    if rc != 0 or total == 0:
-        w = dict(observed="clean run failed: " + out[-300:])
-    stride = int(os.environ.get("C03_STRIDE", "1"))
-    for k in range(1, total + 1, stride):
-        if w:
+w = None
+samples = []
+WORKLOADS = {"outer(1): nested containers of task results": lambda: outer(1), "with_files(): file results inside containers": lambda: with_files(),
+             "guarded(): a failing task under catch next to a succeeding one": lambda: guarded()}
+for name, make in WORKLOADS.items():
+    if w:
+        break
+    r0, e0, total, snap0 = run(make, 0)
+    if e0:
+        w = dict(workload=name, observed="the clean run failed: " + e0)
+        break
+    hit = 0
+    for k in range(1, total + 4):
+        r, e, cnt, snap = run(make, k)
+        if not state["failed"]:
+            continue        # this run had fewer commits (thread timing): no fault was injected
+        n += 1
+        hit += 1
+        diffs = {key: dict(lost=[str(x)[:60] for x in sorted(set(map(str, snap0[key])) - set(map(str, snap.get(key, []))))][:3] if isinstance(snap0[key], list) else snap0[key],
+                           extra=[str(x)[:60] for x in sorted(set(map(str, snap.get(key, []))) - set(map(str, snap0[key])))][:3] if isinstance(snap0[key], list) else snap.get(key))
+                 for key in snap0 if snap.get(key) != snap0[key]}
+        if e or repr(r) != repr(r0) or diffs:
+            w = dict(workload=name, fault="one transient OperationalError instead of commit #%d" % k, commit_of=state["where"], error=e, result=repr(r), clean_result=repr(r0), records_that_differ=diffs)
             break
-        n += 1
-        d = os.path.join(tmp, f"k{k}")
-        os.makedirs(d)
-        rc, out = run("1", d, k)
-        rc2, out2 = run("2", d, 0)
-        if "RESULT" not in out2:
-            w = dict(crash_after_commit=k, of=total, observed="recovery run failed: " + out2[-300:])
-        elif "inner-v1" in out2:
-            w = dict(crash_after_commit=k, of=total, scenario="process killed after commit #%d while recording outer(check_valid=shallow) -> middle -> inner; then inner's version bumped" % k,
-                     expected="['inner-v2-1']", observed=out2.strip().split("RESULT")[-1].split("COMMITS")[0].strip())
-        shutil.rmtree(d, ignore_errors=True)
-    # second scenario family (no crash): a final result served by same-execution CSE under a second, shallow parent
-    if w is None:
-        CSE = r"""
-import sys, os
-sys.path.insert(0, os.environ.get("VERIF_REPO", "/repo"))
-from redun import task, Scheduler
-from redun.config import Config
-from redun.scheduler import catch_all
-import logging; logging.getLogger("redun").setLevel(logging.CRITICAL)
-ver, dbdir = sys.argv[1], sys.argv[2]
-@task(namespace="c03s", version=ver)
-def C(x): return "C%s-%d" % (ver, x)
-@task(namespace="c03s", version="1")
-def A(x): return C(x)
-@task(namespace="c03s", version="1")
-def P1(x): return A(x)
-@task(namespace="c03s", version="1", check_valid="shallow")
-def P2(x, dep): return A(x)
-@task(namespace="c03s", version="1")
-def main():
-    r1 = P1(1)
-    return [r1, P2(1, r1)]
-s = Scheduler(config=Config({"backend": {"db_uri": "sqlite:///" + os.path.join(dbdir, "redun.db")}})); s.load()
-print("RESULT", s.run(main()) if ver == "1" else s.run(P2(1, "C1-1")))
-"""
-        script2 = os.path.join(tmp, "cse.py")
-        open(script2, "w").write(CSE)
-        d = os.path.join(tmp, "cse")
-        os.makedirs(d)
-        n += 1
-        subprocess.run(["/venv/bin/python", script2, "1", d], capture_output=True, text=True, timeout=300)
-        p2 = subprocess.run(["/venv/bin/python", script2, "2", d], capture_output=True, text=True, timeout=300)
-        if "C1-1" in p2.stdout.split("RESULT")[-1]:
-            w = dict(scenario="main -> P1 -> A(1) -> C, then in the same execution P2(check_valid=shallow) -> A(1) served by CSE; C's version bumped; P2 called again",
-                     expected="C2-1", observed=p2.stdout.split("RESULT")[-1].strip())
-finally:
-    shutil.rmtree(tmp, ignore_errors=True)
-finish(w is not None, witness=w, evaluations=n, distinct=n, bound="process death after each of the database commits of one recording run of a 3-task shallow workflow, followed by an edited recovery run")
+    samples.append(dict(workload=name, commits=total, fault_positions=hit))
+
+finish(w is not None, witness=w, evaluations=n, samples=samples,
+       bound="3 workloads (nested containers with subvalues, file results, a failing task under catch) x one transient OperationalError at every commit position of the recording run (in-memory sqlite, retries without delay)")
